@@ -70,41 +70,43 @@ fn in_arena(p: *mut u8) -> bool {
     let b = ARENA_BASE.load(Ordering::Acquire);
     b != 0 && b != usize::MAX && (p as usize) >= b && (p as usize) < b + ARENA_LEN
 }
-/// data pages needed for `size` bytes ending at a page boundary with `align`
+/// The pages a guarded block occupies, derived from (address, size) alone so that allocation and
+/// release agree exactly and no accessible page is ever left behind.
+fn block_pages(start: usize, size: usize) -> (usize, usize) {
+    (start & !(PAGE - 1), (start + size + PAGE - 1) & !(PAGE - 1))
+}
+
 fn guarded_alloc(l: Layout) -> *mut u8 {
     let base = arena_base();
-    if base == 0 || l.align() > PAGE {
+    if base == 0 || l.align() > PAGE || l.size() == 0 {
         return std::ptr::null_mut();
     }
-    let data_len = (l.size() + l.align() + PAGE - 1) / PAGE * PAGE;
-    let total = data_len + GUARD_LEN;
+    let span = (l.size() + l.align() + PAGE - 1) / PAGE * PAGE + GUARD_LEN;
     // wait until the first reserver has published the bump pointer
     while ARENA_NEXT.load(Ordering::Acquire) == 0 {
         std::hint::spin_loop();
     }
-    let at = ARENA_NEXT.fetch_add(total, Ordering::AcqRel);
-    if at + total > base + ARENA_LEN {
+    let at = ARENA_NEXT.fetch_add(span, Ordering::AcqRel);
+    if at + span > base + ARENA_LEN {
         return std::ptr::null_mut(); // arena used up: fall back to the system allocator
     }
-    // SAFETY: the range lies inside our own reserved arena and is handed out exactly once
-    if unsafe { mprotect(at as *mut u8, data_len, PROT_RW) } != 0 {
-        return std::ptr::null_mut();
+    // mode 1: the block ends where the guard begins (over-runs fault); mode 2: the block starts
+    // right behind the previous block's guard (under-runs fault)
+    let start = if GUARD_MODE.load(Ordering::Relaxed) == 2 { at } else { ((at + span - GUARD_LEN) - l.size()) & !(l.align() - 1) };
+    let (lo, hi) = block_pages(start, l.size());
+    // SAFETY: [lo, hi) lies inside the span just taken from our own reserved arena
+    if unsafe { mprotect(lo as *mut u8, hi - lo, PROT_RW) } != 0 {
+        return std::ptr::null_mut(); // e.g. the mapping-count limit: fall back to the system allocator
     }
-    let end = at + data_len;
-    // mode 1: the block ends at the guard (over-runs fault); mode 2: the block starts right
-    // behind the previous block's guard (under-runs fault)
-    let start = if GUARD_MODE.load(Ordering::Relaxed) == 2 { at } else { (end - l.size()) & !(l.align() - 1) };
     GUARDED_BLOCKS.fetch_add(1, Ordering::Relaxed);
     start as *mut u8
 }
 fn guarded_free(p: *mut u8, l: Layout) {
-    let start = p as usize;
-    let base = start & !(PAGE - 1);
-    let end = (start + l.size() + PAGE - 1) & !(PAGE - 1);
+    let (lo, hi) = block_pages(p as usize, l.size());
     // give the memory back and leave the range inaccessible for good (use after free faults)
-    // SAFETY: the range is the one `guarded_alloc` made accessible for this block, inside our arena
+    // SAFETY: exactly the pages `guarded_alloc` made accessible for this block, inside our arena
     unsafe {
-        let _ = mmap(base as *mut u8, end - base, PROT_NONE, MAP_PRIVATE | MAP_ANONYMOUS | MAP_NORESERVE | MAP_FIXED, -1, 0);
+        let _ = mmap(lo as *mut u8, hi - lo, PROT_NONE, MAP_PRIVATE | MAP_ANONYMOUS | MAP_NORESERVE | MAP_FIXED, -1, 0);
     }
 }
 
